@@ -53,6 +53,24 @@ CHECKS = {
     note="As C02. Five reader defects were found this way and repaired (KNOWN_FINDINGS.txt); the repaired protocol was model-checked on ReaderI before the commits.",
     technique="TLA+ P-spec/I-spec with policy-free cache, TLC exhaustive schedules + TLC trace validation of cached vs uncached runs",
     engine="BgzfReader"),
+ "C09": dict(
+    category="fault_enumeration", design_ref="DESIGN.md §5 C09",
+    text="Fault enumeration on the real code, judged by TLC: writer - every underlying-Write index of 6 fixed workloads x wc x {error, partial+error}, random scripts with random fault positions and hook-directed schedules, validated against WriterP (errors sticky and reported by Close, nothing delivered after a failure, every call returns, nothing left after Close); reader - 3 files x 4 workloads (incl. seek-retry after an error) x rd x {cache, none} x every index of the underlying Read and Seek call (error, partial data then error, persistent), validated against the fault-aware ReaderP (only a correct prefix then an error, no early clean end). TLC also checks WriterI/ReaderI with an injected failure for deadlock freedom and leak freedom.",
+    note="Trusted: TLC, watchdog + goroutine dump (hang = over threshold and the call's goroutine parked inside package bgzf; leak = bgzf frames alive after Close beyond a baseline). Contract-violating underlying writers (silent short writes) are excluded, as in the property.",
+    technique="fault enumeration on real code + TLA+ P-spec trace validation by TLC + TLC deadlock/leak check of fault-enabled I-specs",
+    engine="BgzfWriter"),
+ "C10": dict(
+    category="fault_enumeration", design_ref="DESIGN.md §5 C10",
+    text="Crash-point and corruption enumeration on the real reader, judged by TLC against the fault-aware ReaderP: every truncation length of small streams (windows around member boundaries plus a stride for large ones) and single-byte substitutions (+1, xor 0x80; thorough also 0x00, 0xff) with rd in {1,4}; a reply is a correct prefix then an error; a clean end before the true end only if the cut is at a member boundary; HasEOF is false for every proper prefix.",
+    note="BGZF layer only in this check; BAM record-level truncation is exercised through bam.Reader in C05/C13 traces. A byte altered in an unprotected header field (MTIME, XFL, OS) legitimately yields the original data.",
+    technique="crash-point / byte-substitution enumeration on real code + TLA+ fault-aware P-spec trace validation by TLC",
+    engine="BgzfReader"),
+ "C13": dict(
+    category="model_checking", design_ref="DESIGN.md §5 C13",
+    text="ChunkReaderI is index.ChunkReader.Read transcribed over a deterministic Blocked-mode reader model; TLC enumerates every small file, every ordered list of non-overlapping chunks in both spellings (empty chunks included) and every buffer size and checks that exactly the chunks' bytes come back, then io.EOF, with progress. The same lists and seeded real-scale lists run on the real ChunkReader (ChunkTrace). BAM files written by bam.Writer with records on/before/after block ends and spanning blocks are read sequentially (reported chunk per record vs the harness's own record layout), then every (i,j) through SetChunk and random chunk lists through Iterator (BamChunks).",
+    note="Trusted: TLC; harness member encoder, BGZF/BAM framing parsers. BAM files come from the library's own writer (validated separately by C05/C08/C12).",
+    technique="TLA+ I-spec of ChunkReader checked exhaustively by TLC + TLC trace validation of ChunkReader, SetChunk and Iterator runs",
+    engine="BgzfReader"),
 }
 NA_REASON = "check not built yet in this round (specification work in progress; see DESIGN.md §10 build order)"
 
